@@ -38,6 +38,9 @@ def shards(tier, seed):
     # to run any library; the format mapping must not depend on the warning filter
     wcases = PW.build_cases(seed, "c06w", 160 if tier == "quick" else 1600, per_pair_configs=2, translucent_every=3)
     out += [{"kind": "opt", "cases": c, "warnings_as_errors": True} for c in PW.chunk(wcases, 2)]
+    # the same mapping when a console preview and / or an HTML report is asked for (show / save_report)
+    fcases = PW.build_cases(seed, "c06f", 120 if tier == "quick" else 1200, per_pair_configs=2, translucent_every=5)
+    out += [{"kind": "opt", "cases": c, "flags": True} for c in PW.chunk(fcases, 2)]
     return out
 
 
@@ -143,7 +146,40 @@ def work(shard, rec):
             import warnings
             warnings.simplefilter("error")
             rec.count("warnings_as_errors_shards")
+        if shard.get("flags"):
+            return with_flags(shard, rec, lib)
         PW.run_cases(shard, rec, lib, [judge_opt])
+
+
+def with_flags(shard, rec, lib):
+    import contextlib
+    import io
+    import os
+    import tempfile
+    d = os.path.join(os.environ.get("CMV_SCRATCH", tempfile.gettempdir()), "c06-flags-%d" % os.getpid())
+    os.makedirs(d, exist_ok=True)
+    os.chdir(d)
+    for i, case in enumerate(shard["cases"]):
+        text, bg = SP.from_json(case["text"], case["tk"]), SP.from_json(case["bg"], case["bk"])
+        show, save = [(True, False), (False, True), (True, True)][i % 3]
+        res = {}
+        try:
+            pair = lib.ColorPair(text, bg, large_text=False)
+            if not pair.is_valid:
+                rec.count("skipped:library rejects reference-valid spelling")
+                continue
+            for (mode, large, vr) in [tuple(c) for c in case["cfgs"]]:
+                pair = lib.ColorPair(text, bg, large_text=large)
+                with contextlib.redirect_stdout(io.StringIO()), contextlib.redirect_stderr(io.StringIO()):
+                    res[(mode, large, vr)] = pair.make_readable(mode=mode, very_readable=vr, show=show, save_report=save)
+        except Exception as e:
+            rec.count(f"flags_call_raised:{type(e).__name__}(C17)")
+            continue
+        rec.ev(len(res))
+        rec.count("flag_calls_judged", len(res))
+        rec.count(f"flags:show={show},save_report={save}")
+        obs = {"res": res, "orig": tuple(pair.text.rgb), "bgi": tuple(case["b"]), "skip": None}
+        judge_opt(dict(case, show=show, save=save), obs, rec)
 
 
 def api_unneeded(shard, rec, lib):
@@ -157,7 +193,7 @@ def api_unneeded(shard, rec, lib):
             for b in range((r * 131 + g * 17) % st, 256, st):
                 c = (r, g, b)
                 bg = (0, 0, 0) if wcag.ratio(c, (0, 0, 0)) >= wcag.ratio(c, (255, 255, 255)) else (255, 255, 255)
-                kinds = SP.available(c)
+                kinds = [kk for kk in SP.available(c) if SP.OUT_KIND[kk[0]] is not None]
                 # rotate through the spellings deterministically, always include hsl and rgb
                 pick = [kinds[(n + i) % len(kinds)] for i in range(2)] + [kk for kk in kinds if kk[0] in ("hsl",)]
                 for kind, sp in pick:
@@ -181,10 +217,15 @@ def api_unneeded(shard, rec, lib):
 def judge_opt(case, obs, rec):
     bg = obs["bgi"]
     want = SP.OUT_KIND[case["tk"]]
+    if want is None:
+        rec.count("spelling_outside_documented_mapping_not_judged")
+        return
     from cmv.lib import Lib
     parse = Lib().fn("color_parser", "parse_color_to_rgb")
     for (mode, large, vr), out in obs["res"].items():
         cs = {"fn": "opt", **{k: case[k] for k in ("text", "bg", "tk", "bk", "t", "b")}, "mode": mode, "large": large, "vr": vr, "observed": repr(out)}
+        if "show" in case:
+            cs.update(show=case["show"], save=case["save"])
         if out[0] == "EXC":
             rec.violation(f"make_readable raised {out[1]}", cs)
             continue
@@ -229,7 +270,16 @@ def replay(case):
         c = dict(case)
         c["cfgs"] = [[case["mode"], case["large"], case["vr"]]]
         c["cls"] = "replay"
-        obs = PW.observe(c, lib)
+        if "show" in case:
+            import contextlib, io, os, tempfile
+            os.chdir(tempfile.mkdtemp(prefix="c06-replay-"))
+            text, bg = SP.from_json(case["text"], case["tk"]), SP.from_json(case["bg"], case["bk"])
+            pair = lib.ColorPair(text, bg, large_text=case["large"])
+            with contextlib.redirect_stdout(io.StringIO()), contextlib.redirect_stderr(io.StringIO()):
+                out = pair.make_readable(mode=case["mode"], very_readable=case["vr"], show=case["show"], save_report=case["save"])
+            obs = {"res": {(case["mode"], case["large"], case["vr"]): out}, "orig": tuple(pair.text.rgb), "bgi": tuple(case["b"]), "skip": None}
+        else:
+            obs = PW.observe(c, lib)
         print("observed:", obs["res"])
         if not obs["skip"]:
             judge_opt(c, obs, rec)
